@@ -26,7 +26,7 @@ def parse_impl(rep):
     if rep is None or not rep.startswith("ok "):
         return None
     xs = U.parse_sexps(rep[3:])
-    out = {"entries": [], "logs": [], "status": None, "msg": None}
+    out = {"entries": [], "logs": [], "status": None, "msg": None, "probe": None}
     for x in xs:
         if x[0] in ("e", "end"):
             bar = x.index("|")
@@ -42,6 +42,8 @@ def parse_impl(rep):
             out["entries"].append(ent)
         elif x[0] == "logs":
             out["logs"] = [bytes.fromhex(q[1]) for q in x[1:]]
+        elif x[0] == "probe":
+            out["probe"] = U.show(x)
         elif x[0] == "msg":
             out["msg"] = bytes.fromhex(x[1][1]).decode("utf-8", "replace")
     return out
@@ -219,6 +221,11 @@ def derived_of(target, pool):
     return out
 
 
+def probe_diff(a, b):
+    xa, xb = a.split(" ("), (b or "").split(" (")
+    return "; ".join("%s -> %s" % (p, q) for p, q in zip(xa, xb) if p != q)[:400] or "(length differs)"
+
+
 def prog_line(prog, line):
     return prog._text.splitlines()[line - 1].strip() if getattr(prog, "_text", None) else "?"
 
@@ -317,14 +324,34 @@ def run(ctx):
     n_wild = 8000 if thorough else 230
     # a fixed share of the budget goes to the sharp dimensions (gen/storegen.py focus=True): expression
     # SHAPES (model-compared) and locals / parameters / results of EVERY type (oracle)
-    progs = []
     g = G.StoreGen(rng)
     gf = G.StoreGen(rng, focus=True)
-    for k in range(n_core):
-        progs.append((gf if k % 3 == 0 else g).program())
     wg = G.WildGen(rng)
     wgf = G.WildGen(rng, focus=True)
-    wild = [(wgf if k % 2 == 0 else wg).program() for k in range(n_wild)]
+
+    violations_before = len(ctx.violations)
+    # ------------------------------------------------------------------ corpus first (fixed VCL programs with their own expectations)
+    n_corpus = run_corpus(ctx, impl)
+
+    # the programs are generated, run and judged in CHUNKS; only counters survive a chunk (a thorough run
+    # used to hold every parsed trace: > 13 GB)
+    acc = {"n_err": 0, "n_ok": 0, "n_pairs": 0, "model_runs": 0, "agree": 0, "mstat": {}, "n_loglines": 0,
+           "distinct": set(), "watchdog": {"retried": 0, "recovered": 0, "reproduced": 0}, "max_violations": 40}
+    samples = []
+    CH = 300
+    done_core = done_wild = 0
+    while done_core < n_core or done_wild < n_wild:
+        nc = min(CH, n_core - done_core)
+        nw = min(CH * n_wild // max(n_core, 1) + 1, n_wild - done_wild)
+        progs = [(gf if (done_core + k) % 3 == 0 else g).program() for k in range(nc)]
+        wild = [(wgf if (done_wild + k) % 2 == 0 else wg).program() for k in range(nw)]
+        done_core += nc
+        done_wild += nw
+        process_chunk(ctx, impl, model, progs, wild, acc, thorough)
+        if not samples and progs:
+            samples = [{"scope": q.scope, "vcl": q._text[:1500]} for q in (progs[0], progs[len(progs) // 2], wild[0] if wild else progs[-1])]
+        if len(ctx.violations) - violations_before >= acc["max_violations"]:
+            break                       # enough to report; do not spend the rest of the budget
     stats = {}
     dims = {}
     for pre, gen in (("", g), ("focus:", gf), ("wild:", wg), ("wild-focus:", wgf)):
@@ -333,97 +360,23 @@ def run(ctx):
                 dims[k[4:]] = dims.get(k[4:], 0) + v
             else:
                 stats[pre + k] = v
-
-    violations_before = len(ctx.violations)
-    # ------------------------------------------------------------------ corpus first (fixed VCL programs with their own expectations)
-    n_corpus = run_corpus(ctx, impl)
-
-    # ------------------------------------------------------------------ implementation, base programs
-    allp = progs + wild
-    reqs, maps = impl_requests(allp)
-    for p, (text, _) in zip(allp, maps):
-        p._text = text
-    ireps = V.run_batch(impl, reqs, hang_s=10)
-    itraces = []
-    n_err = n_ok = 0
-    for p, rep, (text, linemap) in zip(allp, ireps, maps):
-        it = parse_impl(rep)
-        itraces.append(it)
-        if it is None:
-            ctx.violation("interpreter %s on a generated store program" % ((rep or "no reply")[:120]),
-                          {"scope": p.scope, "vcl": text, "reply": rep})
-            continue
-        if it["status"] == "err":
-            n_err += 1
-        else:
-            n_ok += 1
-    # ------------------------------------------------------------------ direct oracle on the implementation
-    n_pairs = 0
-    for p, it, (text, linemap) in zip(allp, itraces, maps):
-        if it is None:
-            continue
-        n_pairs += len(it["entries"])
-        for what, line in oracle(p, it, linemap)[:1]:
-            ctx.violation("store frame violated by the interpreter: " + what,
-                          {"scope": p.scope, "vcl": text, "line": line, "wild": p.wild})
-    # ------------------------------------------------------------------ model vs implementation (core programs)
-    mreqs = []
-    idx = []
-    for k, (p, it) in enumerate(zip(progs, itraces)):
-        if it is None or not it["entries"]:
-            continue
-        g0 = [U.show(v) for v in it["entries"][0]["pool"][:len(p.globals)]]
-        mreqs.append("run repaired 20000 %d %s" % (len(p.objs), p.sexp(g0)))
-        idx.append(k)
-    mreps = V.run_batch([model], mreqs, hang_s=60, mem_kb=8_000_000)
-    agree = 0
-    nontrivial = set()
-    mstat = {}
-    for k, rep in zip(idx, mreps):
-        p, it = progs[k], itraces[k]
-        mt = parse_model(rep, p)
-        if mt is None or rep.startswith(("badreq", "hang", "died", "stackoverflow")):
-            ctx.violation("model driver failed: %s" % (rep or "")[:200], {"vcl": p._text, "model_request": mreqs[idx.index(k)][:3000]})
-            continue
-        mstat[mt["status"]] = mstat.get(mt["status"], 0) + 1
-        d = compare(p, it, mt)
-        if d is not None:
-            ctx.violation("interpreter and heap model disagree: " + d,
-                          {"scope": p.scope, "vcl": p._text, "model_request": mreqs[idx.index(k)][:6000]})
-        else:
-            agree += 1
-            nontrivial.add(p._text)
-    # ------------------------------------------------------------------ the same store seen through `log`
-    sub = allp if thorough else allp[::2]
-    lreqs, lmaps = impl_requests(sub, snapshot_logs=True)
-    lreps = V.run_batch(impl, lreqs, hang_s=10)
-    n_loglines = 0
-    for p, rep, (text, linemap) in zip(sub, lreps, lmaps):
-        it = parse_logrun(rep)
-        if it is None:
-            ctx.violation("interpreter %s on a log-instrumented store program" % ((rep or "no reply")[:120]), {"vcl": text})
-            continue
-        base = p._text
-        p._text = text
-        bad = check_logs(p, it, linemap)
-        n_loglines += len(it["logs"])
-        for what in bad[:1]:
-            ctx.violation("accessor snapshot and in-language log disagree: " + what, {"scope": p.scope, "vcl": text})
-        p._text = base
+    n_err, n_ok, n_pairs, agree, mstat, n_loglines = (acc[k] for k in ("n_err", "n_ok", "n_pairs", "agree", "mstat", "n_loglines"))
 
     if not proved and len(ctx.violations) == violations_before:
         ctx.violation("proof obligation of C13 no longer checks: " + (ctx.broken or "Props/C13.v"),
                       {"no_failing_input": True, "broken": ctx.broken,
-                       "searched": "%d programs: no frame violation in the interpreter's traces, model and interpreter agree" % len(allp)})
-    ctx.samples = [{"scope": p.scope, "vcl": p._text[:1500]} for p in (progs[0], progs[len(progs) // 2], wild[0] if wild else progs[-1])]
+                       "searched": "%d programs: no frame violation in the interpreter's traces, model and interpreter agree" % (done_core + done_wild)})
+    ctx.samples = samples
     ctx.coverage.update({
-        "evaluations": n_pairs + len(mreqs) + n_loglines,
-        "distinct_nontrivial": len(nontrivial) + len(set(p._text for p in wild)),
-        "programs_core": len(progs), "programs_wild": len(wild), "corpus_programs": n_corpus,
+        "evaluations": n_pairs + acc["model_runs"] + n_loglines,
+        "distinct_nontrivial": len(acc["distinct"]),
+        "programs_core": done_core, "programs_wild": done_wild, "corpus_programs": n_corpus,
+        "watchdog": dict(acc["watchdog"], policy="a hang / died reply is re-run alone (twice, 4x the limit) and only reported when it reproduces"),
         "impl_runs_ok": n_ok, "impl_runs_raising": n_err,
         "statement_snapshots_checked_by_oracle": n_pairs,
-        "model_runs": len(mreqs), "model_agree": agree, "model_status": mstat,
+        "model_runs": acc["model_runs"], "model_agree": agree, "model_status": mstat,
         "log_lines_cross_checked": n_loglines,
+        "fresh_interpreter_probes_equal_to_a_new_process": acc.get("probes_equal", 0), "probes_differing": acc.get("probe_diffs", 0),
         "dimension_counts": dict(sorted(dims.items())),
         "budget_shares": {"core programs with shape focus": "1/3", "wild programs with shape + all-types focus": "1/2"},
         "generator_stats": dict(sorted(stats.items())),
@@ -436,6 +389,101 @@ def run(ctx):
              "distinct program text on which model and interpreter agree on every snapshot")
 
 
+def process_chunk(ctx, impl, model, progs, wild, acc, thorough):
+    import hashlib
+
+    def wd(st):
+        for k in st:
+            acc["watchdog"][k] += st[k]
+    allp = progs + wild
+    reqs, maps = impl_requests(allp)
+    for p, (text, _) in zip(allp, maps):
+        p._text = text
+    ireps, st = U.robust_batch(impl, reqs, hang_s=60)
+    wd(st)
+    if acc.get("probe_baseline") is None:
+        # what a fresh interpreter (a second service) looks like in a process that has run nothing
+        base = parse_impl(U.robust_batch(impl, ["recv - " + "sub t_main {\n}\n".encode().hex()], hang_s=60)[0][0])
+        acc["probe_baseline"] = base["probe"] if base else "?"
+    itraces = []
+    dirty = False
+    for p, rep, (text, linemap) in zip(allp, ireps, maps):
+        it = parse_impl(rep)
+        itraces.append(it)
+        if it is not None and it["probe"] != acc["probe_baseline"]:
+            acc["probe_diffs"] = acc.get("probe_diffs", 0) + 1
+            if not dirty:
+                # the first program after which the process is no longer pristine is the culprit
+                dirty = True
+                ctx.violation("process-global state: after this program a FRESH interpreter (second service, same process) no longer "
+                              "looks as in a new process: %s" % probe_diff(acc["probe_baseline"], it["probe"]),
+                              {"scope": p.scope, "vcl": text, "probe_fresh_process": acc["probe_baseline"], "probe_after": it["probe"]})
+        elif it is not None:
+            acc["probes_equal"] = acc.get("probes_equal", 0) + 1
+        if it is None:
+            ctx.violation("interpreter %s on a generated store program (reproduced on a second and third run alone)" % ((rep or "no reply")[:120]),
+                          {"scope": p.scope, "vcl": text, "reply": rep})
+            continue
+        if it["status"] == "err":
+            acc["n_err"] += 1
+        else:
+            acc["n_ok"] += 1
+    # ---- direct oracle on the implementation
+    for p, it, (text, linemap) in zip(allp, itraces, maps):
+        if it is None:
+            continue
+        acc["n_pairs"] += len(it["entries"])
+        for what, line in oracle(p, it, linemap)[:1]:
+            ctx.violation("store frame violated by the interpreter: " + what,
+                          {"scope": p.scope, "vcl": text, "line": line, "wild": p.wild})
+        if p.wild:
+            acc["distinct"].add(hashlib.sha1(text.encode()).digest()[:8])
+    # ---- model vs implementation (core programs)
+    mreqs = []
+    idx = []
+    for k, (p, it) in enumerate(zip(progs, itraces)):
+        if it is None or not it["entries"]:
+            continue
+        g0 = [U.show(v) for v in it["entries"][0]["pool"][:len(p.globals)]]
+        mreqs.append("run repaired 20000 %d %s" % (len(p.objs), p.sexp(g0)))
+        idx.append(k)
+    mreps, st = U.robust_batch([model], mreqs, hang_s=180, mem_kb=8_000_000)
+    wd(st)
+    acc["model_runs"] += len(mreqs)
+    for j, (k, rep) in enumerate(zip(idx, mreps)):
+        p, it = progs[k], itraces[k]
+        mt = parse_model(rep, p) if rep is not None else None
+        if mt is None or rep.startswith(("badreq", "hang", "died", "stackoverflow", "skipped")):
+            ctx.violation("model driver failed: %s" % (rep or "")[:200], {"vcl": p._text, "model_request": mreqs[j][:3000]})
+            continue
+        acc["mstat"][mt["status"]] = acc["mstat"].get(mt["status"], 0) + 1
+        d = compare(p, it, mt)
+        if d is not None:
+            ctx.violation("interpreter and heap model disagree: " + d,
+                          {"scope": p.scope, "vcl": p._text, "model_request": mreqs[j][:6000]})
+        else:
+            acc["agree"] += 1
+            acc["distinct"].add(hashlib.sha1(p._text.encode()).digest()[:8])
+    del itraces, ireps, mreps
+    # ---- the same store seen through `log`
+    sub = allp if thorough else allp[::2]
+    lreqs, lmaps = impl_requests(sub, snapshot_logs=True)
+    lreps, st = U.robust_batch(impl, lreqs, hang_s=60)
+    wd(st)
+    for p, rep, (text, linemap) in zip(sub, lreps, lmaps):
+        it = parse_logrun(rep)
+        if it is None:
+            ctx.violation("interpreter %s on a log-instrumented store program" % ((rep or "no reply")[:120]), {"vcl": text})
+            continue
+        base = p._text
+        p._text = text
+        bad = check_logs(p, it, linemap)
+        acc["n_loglines"] += len(it["logs"])
+        for what in bad[:1]:
+            ctx.violation("accessor snapshot and in-language log disagree: " + what, {"scope": p.scope, "vcl": text})
+        p._text = base
+
+
 def run_corpus(ctx, impl):
     """corpus/C13/*.vcl: first line `# scope=<s> pool=<a,b,..> expect=<name>=<rendered value>;...` (values at the end)"""
     items = corpus_programs()
@@ -445,7 +493,7 @@ def run_corpus(ctx, impl):
         kv = dict(x.split("=", 1) for x in head.lstrip("# ").split() if "=" in x)
         reqs.append("%s %s %s" % (kv.get("scope", "recv"), kv.get("pool", "-"), text.encode().hex()))
         metas.append((fn, text, kv))
-    reps = V.run_batch(impl, reqs, hang_s=10) if reqs else []
+    reps = U.robust_batch(impl, reqs, hang_s=60)[0] if reqs else []
     for (fn, text, kv), rep in zip(metas, reps):
         it = parse_impl(rep)
         if it is None or it["status"] != "ok":
